@@ -142,6 +142,10 @@ Definition set_children (t : item) (cs : list item) : option item :=
   | _, _ => None
   end.
 
+(* put back a list of children (total: an arity mismatch leaves the node as it is) *)
+Definition rebuild (t : item) (cs : list item) : item :=
+  match set_children t cs with Some t' => t' | None => t end.
+
 Definition is_op (t : item) : bool := match t with Op _ _ _ => true | _ => false end.
 
 (* element_from_path *)
